@@ -67,9 +67,6 @@ theorem sumTo_extend {f : Nat → Nat} (N : Nat) : ∀ k, (∀ c, N ≤ c → c 
 /-- how often `p` occurs among the parents of `c` -/
 def occ (g : Graph) (c p : Nat) : Nat := (g.parents c).count p
 
-/-- parents precede children, for every node index -/
-def Graph.Topo (g : Graph) : Prop := ∀ n p, p ∈ g.parents n → p < n
-
 theorem occ_pos_lt (g : Graph) (ht : g.Topo) (c p : Nat) (h : occ g c p ≠ 0) : p < c := by
   unfold occ at h
   exact ht c p (List.count_pos_iff.mp (Nat.pos_of_ne_zero h))
